@@ -225,7 +225,7 @@ def acc_cases(seed, n, maxdim, groups, path, large_share=0.25):
             made += 1
         if "move" in groups and large_share > 0:
             made += translate_lattice(rnd, f)
-        if large_share > 0 and ({"prim", "sort", "move"} & set(groups)):
+        if large_share > 0 and ({"prim", "sort", "move", "copy"} & set(groups)):
             made += thin_lattice(rnd, f, groups)
     return made
 
@@ -249,6 +249,13 @@ def thin_lattice(rnd, f, groups):
                 calls += [("swap_rows", {"r1": 0, "r2": R - 1}), ("swap_cols", {"c1": 0, "c2": C - 1}), ("swap_rows", {"r1": R - 1, "r2": 0})]
             if "move" in groups:
                 calls += [("flip_rows", {"z": 0}), ("flip_cols", {"z": 0}), ("translate", {"mc": C // 2, "mr": R // 2})]
+            if "copy" in groups:
+                # long rows / columns moved by one (overlapping), onto the opposite edge (disjoint), and a full-size source
+                calls += [("copy_within", {"tl": [0, 0], "br": [C - 1, R - 1], "d": [1, 1]}),
+                          ("copy_within", {"tl": [1, 0], "br": [C, R], "d": [0, 0]}),
+                          ("copy_within", ({"tl": [0, 0], "br": [C, 1], "d": [0, R - 1]} if wide else {"tl": [0, 0], "br": [1, R], "d": [C - 1, 0]})),
+                          ("copy_from_toodee", {"sk": rnd.choice(["owned", "view", "strided"]), "snc": C, "snr": R,
+                                                "src": [500 + i for i in range(1, C * R + 1)]})]
             if "sort" in groups:
                 # the key line is the SHORT one (2 - 3 keys), the lines exchanged are the long ones; long key lines are the
                 # business of the sort-line pipeline (SortTrace.tla is linear in the line, AccessTrace.tla is not)
